@@ -63,16 +63,22 @@ func main() {
 	deadlineUnix := flag.Int64("deadline", 0, "")
 	outPath := flag.String("out", "", "")
 	only := flag.String("stages", "", "comma-separated stage names (default: all of the tier)")
+	onlyConfig := flag.Int("config", -1, "worker: evaluate only this configuration")
 	flag.Parse()
 
 	verifrt.SetMode(verifrt.ModeSeq)
 
 	if *worker {
-		code := runWorker(*tier, *stageName, *shard, *nshards, *rot, time.Unix(*deadlineUnix, 0), *outPath)
+		code := runWorker(*tier, *stageName, *shard, *nshards, *rot, *onlyConfig, time.Unix(*deadlineUnix, 0), *outPath)
 		os.Exit(code)
 	}
 
 	syscall.Umask(0o022)
+
+	self, err := os.Executable()
+	if err != nil {
+		self = os.Args[0]
+	}
 
 	if os.Geteuid() != 0 {
 		fmt.Fprintln(os.Stderr, "c04: needs root (chown on the kernel side); harness precondition")
@@ -164,12 +170,22 @@ func main() {
 		}
 
 		n := m.rec.Count + v.Count
+		by := map[string]int{}
+
+		for c, x := range m.rec.ByCall {
+			by[c] += x
+		}
+
+		for c, x := range v.ByCall {
+			by[c] += x
+		}
 
 		if stageIdx < m.stage || (stageIdx == m.stage && keyLess(v.Key, m.rec.Key)) {
 			m.rec, m.stage = v, stageIdx
 		}
 
 		m.rec.Count = n
+		m.rec.ByCall = by
 	}
 
 	// ---- chain sweep (serial, in this process) ----
@@ -234,6 +250,8 @@ func main() {
 			exh = false
 			results = append(results, sr)
 
+			fmt.Printf("C04 stage %s: not started (budget of %d s used up)\n", st.Name, budget)
+
 			continue
 		}
 
@@ -249,8 +267,8 @@ func main() {
 				defer wg.Done()
 
 				out := filepath.Join(scratch, fmt.Sprintf("c04-out-%s-%d.json", st.Name, i))
-				cmd := exec.Command(os.Args[0], "-id", *id, "-tier", *tier, "-worker", "-stage", st.Name,
-					"-shard", strconv.Itoa(i), "-nshards", strconv.Itoa(nw), "-rot", strconv.Itoa(((seed%nw)+nw)%nw),
+				cmd := exec.Command(self, "-id", *id, "-tier", *tier, "-worker", "-stage", st.Name,
+					"-shard", strconv.Itoa(i), "-nshards", strconv.Itoa(nw), "-rot", strconv.Itoa(seed),
 					"-deadline", strconv.FormatInt(deadline.Unix(), 10), "-out", out)
 				cmd.Stderr = os.Stderr
 				cmd.Env = append(os.Environ(), "GOMAXPROCS=2")
@@ -269,6 +287,8 @@ func main() {
 					if json.Unmarshal(b, &o) == nil {
 						outs[i] = &o
 					}
+
+					_ = os.Remove(out)
 				}
 			}(i)
 		}
@@ -281,31 +301,52 @@ func main() {
 			out := filepath.Join(scratch, fmt.Sprintf("c04-out-%s-%d.json", st.Name, i))
 			o := outs[i]
 
-			switch {
-			case exits[i] == 3:
-				// a call did not return within the watchdog time
-				b, _ := os.ReadFile(out + ".hang")
+			if exits[i] != 0 && exits[i] != 2 {
+				// the worker hung (exit 3, watchdog) or died (fatal runtime error:
+				// stack overflow, out of memory...). The configuration it was
+				// evaluating is run once more on its own: only if that fails the
+				// same way it is attributed to the configuration.
+				cur, _ := os.ReadFile(out + ".cur")
+				ci, _ := strconv.Atoi(strings.TrimSpace(string(cur)))
+				out2 := out + ".confirm"
+				cmd := exec.Command(self, "-id", *id, "-tier", *tier, "-worker", "-stage", st.Name, "-config", strconv.Itoa(ci),
+					"-rot", strconv.Itoa(seed), "-deadline", strconv.FormatInt(time.Now().Add(time.Hour).Unix(), 10), "-out", out2)
+				cmd.Stderr = os.Stderr
+				cmd.Env = append(os.Environ(), "GOMAXPROCS=2")
+				ex2 := 0
 
-				var h map[string]any
-				_ = json.Unmarshal(b, &h)
+				if err := cmd.Run(); err != nil {
+					ex2 = -1
 
-				mergeViol(si, &violRec{Sig: kf.Sig{"call": "-", "kind": "hang", "kernel": "returns", "avfs": "HANG"}, Count: 1, Replay: h})
+					if ee, ok := err.(*exec.ExitError); ok {
+						ex2 = ee.ExitCode()
+					}
+				}
+
 				complete = false
-			case exits[i] == 2:
+
+				switch {
+				case ex2 == 3:
+					b, _ := os.ReadFile(out2 + ".hang")
+
+					var h map[string]any
+					_ = json.Unmarshal(b, &h)
+
+					mergeViol(si, &violRec{Sig: kf.Sig{"call": "-", "kind": "hang", "kernel": "returns", "avfs": "HANG"}, Count: 1, Replay: h})
+				case ex2 != 0 && ex2 != 2:
+					mergeViol(si, &violRec{Sig: kf.Sig{"call": "-", "kind": "crash", "kernel": "returns", "avfs": "worker-died"}, Count: 1,
+						Replay: map[string]any{"links": sp.config(ci), "stage": st.Name, "exit": ex2, "note": "the worker process died twice while evaluating this configuration"}})
+				default:
+					harness = fmt.Sprintf("worker %d of stage %s exited %d at configuration %d, which passes when evaluated alone", i, st.Name, exits[i], ci)
+				}
+			}
+
+			if exits[i] == 2 {
 				if o != nil {
 					harness = o.HarnessErr
 				} else {
 					harness = fmt.Sprintf("worker %d of stage %s exited 2", i, st.Name)
 				}
-			case exits[i] != 0:
-				// fatal runtime error (stack overflow, out of memory...): attributed
-				// to the configuration the worker was evaluating
-				cur, _ := os.ReadFile(out + ".cur")
-				ci, _ := strconv.Atoi(strings.TrimSpace(string(cur)))
-
-				mergeViol(si, &violRec{Sig: kf.Sig{"call": "-", "kind": "crash", "kernel": "returns", "avfs": "worker-died"}, Count: 1,
-					Replay: map[string]any{"links": sp.config(ci), "stage": st.Name, "exit": exits[i], "note": "worker process died while evaluating this configuration"}})
-				complete = false
 			}
 
 			if o == nil {
@@ -388,6 +429,9 @@ func main() {
 		instances += m.rec.Count
 
 		r := map[string]any{"instances": m.rec.Count}
+		if len(m.rec.ByCall) > 0 {
+			r["instances_by_call"] = m.rec.ByCall
+		}
 		for kk, vv := range m.rec.Replay {
 			r[kk] = vv
 		}
@@ -395,7 +439,20 @@ func main() {
 		rep.Report(m.rec.Sig, r)
 	}
 
+	if rep.Discover {
+		// kf prints one DISCOVER line per signature with n = number of reports
+		// (1 here); the instance counts are these
+		for _, k := range keys {
+			fmt.Printf("DISCOVER-INSTANCES property=%s instances=%d known=%v sig=%s\n", *id, all[k].rec.Count, rep.Known(all[k].rec.Sig), k)
+		}
+	}
+
 	code := rep.Finish()
+
+	matched := rep.KnownMatched()
+	if matched == nil {
+		matched = []string{}
+	}
 
 	states := cst.Configs
 	for _, n := range graphs {
@@ -431,11 +488,13 @@ func main() {
 				"filepath_evalsymlinks_max_chain": cst.FilepathEvalMax, "memfs_evalsymlinks_max_chain": cst.AvfsEvalMax,
 			},
 			"violation_instances": instances, "violation_signatures": len(keys),
-			"known_findings_matched": rep.KnownMatched(), "workers": nw, "budget_s": budget,
+			"known_findings_matched": matched, "workers": nw, "budget_s": budget,
 		},
 		Assumptions: []string{
 			"oracle = Linux kernel " + kernelVersion() + ", tmpfs, root, through package os (osfs.OsFS) and path/filepath.EvalSymlinks; what this kernel answers on tmpfs defines 'as on Linux' (hard link to a symlink, rename onto itself, error precedence)",
-			"a failed kernel-side call leaves the tmpfs tree unchanged (single system calls), so the kernel tree is dumped only after a successful call; the MemFS tree is dumped after every mutating call",
+			"a failed kernel-side call leaves the tmpfs tree unchanged (single system calls), so the kernel tree is dumped only after a successful call; the MemFS tree is dumped through the public API after every successful mutating call and after a failed one whenever the node graph (injected VerifDump hook) changed",
+			"the kernel tree is restored after a mutating call by undoing attribute changes and new entries, by a full rebuild otherwise, and is verified against the pristine dump at the end of every configuration (mismatch = harness error)",
+			"a disagreement is additionally put to the kernel in normalised form (query made absolute and lexically cleaned, link targets lexically cleaned - what MemFS does before resolving); if the kernel's answer to the normalised question equals MemFS's answer the instance is reported under kind=normalised with the normalisation's name, and what still differs is reported separately with the classes of the normalised query",
 			"Readlink is compared with filepath.Clean of the kernel's answer (the statement allows the cleaned target); link targets in tree dumps likewise",
 			"FileInfo.Name is not compared for a query ending in '..'; directory size and link count are not compared; mtimes only for the instant set by Chtimes",
 			"with 2 links the name l3 does not exist: target l3 and query component l3 are the class of 'nope' and are left out of the 2-link stages",
